@@ -13,6 +13,7 @@ import (
 	"runtime"
 	"strings"
 	"sync/atomic"
+	"syscall"
 	"testing"
 	"testing/synctest"
 	"time"
@@ -36,6 +37,7 @@ var (
 	fLog      = flag.Bool("sim.log", false, "print the canonical log of every run")
 	fTrace    = flag.Int("sim.trace", 0, "include the first log lines of the first N runs in their RES line")
 	fTapeOut  = flag.String("sim.tapeout", "", "stream the tape of the (single) run to this file")
+	fMemLimit = flag.Int("sim.memlimit", 8192, "address-space limit of the child in MiB (0 = none)")
 	fStall    = flag.Duration("sim.stall", 20*time.Second, "real-time watchdog: no step for this long = stall")
 )
 
@@ -189,6 +191,12 @@ func TestSim(t *testing.T) {
 		t.Skip("no -sim.scenario")
 	}
 	go watchdog()
+	if *fMemLimit > 0 {
+		// a corrupted length must not be able to take the machine down: cap the address
+		// space so that a runaway allocation kills this child ("out of memory") instead
+		lim := syscall.Rlimit{Cur: uint64(*fMemLimit) << 20, Max: uint64(*fMemLimit) << 20}
+		_ = syscall.Setrlimit(syscall.RLIMIT_AS, &lim)
+	}
 	if *fReplay != "" {
 		replay(t)
 		return
